@@ -586,7 +586,7 @@ static void update_invloop(struct context_data *ctx, struct channel_data *xc)
 	if (len >= 0 && xc->invloop.count >= 128) {
 		xc->invloop.count = 0;
 
-		if (++xc->invloop.pos > len) {
+		if (++xc->invloop.pos >= len) {
 			xc->invloop.pos = 0;
 		}
 
